@@ -176,41 +176,23 @@ Proof.
 Qed.
 End Proofs.
 
-(* an event the relayer cannot translate hides no other event: one undisturbed iteration from the cursor submits every
-   translatable event of [cursor, n-50], whatever untranslatable events stand before or after it in its block or range *)
-Theorem untranslatable_hide_nothing : forall tr raw s n,
+(* an event the relayer cannot translate hides no other event: one undisturbed iteration from the cursor hands over every
+   burn / lock event of [cursor, n-50], and the claims made of what was handed over hold every translatable one of them -
+   whatever untranslatable events stand before or after it in its block or range - and nothing but translatable events that
+   were handed over *)
+Theorem untranslatable_hide_nothing : forall tr ev s n,
   r_pc s = Idle -> 0 < r_cursor s -> r_cursor s <= n - TRAILING ->
-  let s' := run (translatable_events tr raw) s [Head n true; Tick; Tick] in
+  let s' := run ev s [Head n true; Tick; Tick] in
   r_persisted s' = n - TRAILING + 1 /\
-  (forall b e, r_cursor s <= b <= n - TRAILING -> In e (raw b) -> tr e = true -> In (b, e) (r_submitted s')) /\
-  (forall b e, In (b, e) (r_submitted s') -> In (b, e) (r_submitted s) \/ (In e (raw b) /\ tr e = true)).
+  (forall b e, r_cursor s <= b <= n - TRAILING -> In e (ev b) -> tr e = true -> In (b, e) (handle_events tr (r_submitted s'))) /\
+  (forall b e, In (b, e) (handle_events tr (r_submitted s')) -> tr e = true /\ In (b, e) (r_submitted s')).
 Proof.
-  intros tr raw s n Hpc Hc Hle s'.
-  destruct (resume_covers (translatable_events tr raw) s n Hpc Hc Hle) as (_ & Hp & _ & Hcov & _).
+  intros tr ev s n Hpc Hc Hle s'.
+  destruct (resume_covers ev s n Hpc Hc Hle) as (_ & Hp & _ & Hcov & _).
   split; [exact Hp|]. split.
-  - intros b e Hb He Ht. apply Hcov; [exact Hb|]. unfold translatable_events. apply filter_In. auto.
-  - intros b e Hin. subst s'. unfold run in Hin. cbn [fold_left] in Hin.
-    assert (G : forall st i, In (b, e) (r_submitted (step (translatable_events tr raw) st i)) ->
-              (forall x, (match r_pc st with Fetched _ _ evs => In x evs | _ => False end) -> In (snd x) (raw (fst x)) /\ tr (snd x) = true) ->
-              In (b, e) (r_submitted st) \/ (In e (raw b) /\ tr e = true)).
-    { intros st i Hi Hf. destruct i as [m ok| |]; unfold step in Hi.
-      - destruct (r_pc st); [|left; exact Hi|left; exact Hi]. destruct (m - TRAILING <? 0); [left; exact Hi|].
-        destruct (negb ok); [left; exact Hi|]. destruct (events_in _ _ _); left; exact Hi.
-      - destruct (r_pc st) as [|f t evs|t] eqn:Epc; [left; exact Hi| |left; exact Hi].
-        cbn in Hi. apply in_app_or in Hi. destruct Hi as [Hi|Hi]; [left; exact Hi|right]. exact (Hf (b, e) Hi).
-      - left. exact Hi. }
-    set (s1 := step (translatable_events tr raw) s (Head n true)) in *.
-    set (s2 := step (translatable_events tr raw) s1 Tick) in *.
-    assert (F1 : forall x, (match r_pc s1 with Fetched _ _ evs => In x evs | _ => False end) -> In (snd x) (raw (fst x)) /\ tr (snd x) = true).
-    { intros [b0 e0]. subst s1. unfold step. rewrite Hpc. destruct (n - TRAILING <? 0); [cbn; tauto|].
-      cbn [negb]. destruct (events_in _ _ _) as [|y l] eqn:Ee; cbn [r_pc]; [tauto|].
-      intros Hx. rewrite <- Ee in Hx. apply events_in_In in Hx. destruct Hx as [_ Hx]. unfold translatable_events in Hx.
-      apply filter_In in Hx. exact Hx. }
-    assert (F2 : forall x, (match r_pc s2 with Fetched _ _ evs => In x evs | _ => False end) -> In (snd x) (raw (fst x)) /\ tr (snd x) = true).
-    { intros x. subst s2. unfold step. destruct (r_pc s1) eqn:E1; [rewrite E1; tauto|cbn; tauto|cbn; tauto]. }
-    destruct (G s2 Tick Hin F2) as [H2|H2]; [|right; exact H2].
-    destruct (G s1 Tick H2 F1) as [H1|H1]; [|right; exact H1].
-    assert (F0 : forall x, (match r_pc s with Fetched _ _ evs => In x evs | _ => False end) -> In (snd x) (raw (fst x)) /\ tr (snd x) = true)
-      by (rewrite Hpc; tauto).
-    exact (G s (Head n true) H1 F0).
+  - intros b e Hb He Ht. unfold handle_events. apply filter_In. split; [apply Hcov; assumption|exact Ht].
+  - intros b e Hin. unfold handle_events in Hin. apply filter_In in Hin. cbn [snd] in Hin. tauto.
 Qed.
+(* the claims are a sub-list of what was handed over, so C17_confirmations and C17_no_gap speak about them too *)
+Lemma handle_events_app tr l1 l2 : handle_events tr (l1 ++ l2) = handle_events tr l1 ++ handle_events tr l2.
+Proof. unfold handle_events. apply filter_app. Qed.
